@@ -75,8 +75,11 @@ impl io::Write for SimpleChecksum {
 impl Hasher for SimpleChecksum {
     #[inline]
     fn write(&mut self, buf: &[u8]) {
-        let new_sum = buf.iter().map(|v| u32::from(*v)).sum::<u32>();
-        self.0 = ((u32::from(self.0) + new_sum) & 0xffff) as u16;
+        // the sum is only needed mod 65536, so it may wrap
+        let new_sum = buf
+            .iter()
+            .fold(0u32, |sum, v| sum.wrapping_add(u32::from(*v)));
+        self.0 = (u32::from(self.0).wrapping_add(new_sum) & 0xffff) as u16;
     }
 
     #[inline]
